@@ -68,8 +68,8 @@ func (m RawMessage) String() string {
 func (m RawMessage) Unmarshal(v any) error {
 	d := NewDecoder(bytes.NewReader(m.Data))
 	val := reflect.ValueOf(v)
-	if val.Kind() != reflect.Ptr {
-		return errors.New("nbt: non-pointer passed to UnmarshalNBT")
+	if val.Kind() != reflect.Ptr || val.IsNil() {
+		return errors.New("nbt: non-pointer or nil pointer passed to UnmarshalNBT")
 	}
 	return d.unmarshal(val, m.Type)
 }
@@ -78,8 +78,8 @@ func (m RawMessage) UnmarshalDisallowUnknownField(v any) error {
 	d := NewDecoder(bytes.NewReader(m.Data))
 	d.DisallowUnknownFields()
 	val := reflect.ValueOf(v)
-	if val.Kind() != reflect.Ptr {
-		return errors.New("nbt: non-pointer passed to UnmarshalNBT")
+	if val.Kind() != reflect.Ptr || val.IsNil() {
+		return errors.New("nbt: non-pointer or nil pointer passed to UnmarshalNBT")
 	}
 	return d.unmarshal(val, m.Type)
 }
